@@ -94,6 +94,7 @@ def make_config(prop, rng, tier):
 # ---------------------------------------------------------------------------
 
 TRACE_CAP = 3000
+LONG_TRACE_BUDGET = 60000000      # >= 25 x the 2.3M lines the dearest spiral we request costs
 NF_MIN_BUDGET = 200000
 
 
@@ -326,6 +327,43 @@ class World(BaseWorld):
         self.counters["subs_lineages"] += 1
         self.store(op["dst"], got, M.model_of(got), "%s#subs%d" % (op["dst"], self.counters["subs_lineages"]))
         self.note("subs_done")
+        return "ok"
+
+    def op_long_trace(self, op):
+        """A connected diagram whose normalisation takes about n**3 / 3 * 4 steps (the spiral of
+        arXiv:1804.07832, 2n+2 boxes on up to 2n+1 wires; 1 140 steps for n = 9): normal_form must
+        still terminate with a well-typed rearrangement of the input that is a fixed point.  Too wide
+        for M2 and for stepping the trace through M1; termination and typing only."""
+        n, left = op["n"], op["left"]
+        x = [["x", 0]]
+        boxes = [{"name": "unit", "dom": [], "cod": x, "kind": "box"}]
+        offsets = [0]
+        for i in range(n):
+            boxes.append({"name": "cap", "dom": [], "cod": x + x, "kind": "box"})
+            offsets.append(i)
+        boxes.append({"name": "counit", "dom": x, "cod": [], "kind": "box"})
+        offsets.append(n)
+        for i in range(n):
+            boxes.append({"name": "cup", "dom": x + x, "cod": [], "kind": "box"})
+            offsets.append(n - i - 1)
+        real = B.build({"cls": op.get("cls", "monoidal"), "dom": [], "boxes": boxes, "offsets": offsets})
+        if op.get("dagger"):
+            real = real[::-1]
+        model = M.model_of(real)
+        outcome, nf = self._normal_form(real, left, LONG_TRACE_BUDGET)
+        if outcome != "value":
+            raise self.vio("termination" if outcome in ("budget", "NotImplementedError") else "exception",
+                           "normal_form of the connected %d-turn spiral (%d boxes) gave %s" % (
+                               n, len(model[1]), outcome))
+        nm = self.check_value(nf, model, "normal form of a spiral")
+        if not M.same_boxes(model, nm):
+            raise self.vio("boxes", "normal form of a spiral has other boxes than its input")
+        o2, nf2 = self._normal_form(nf, left, LONG_TRACE_BUDGET)
+        if o2 != "value" or nf2 != nf:
+            raise self.vio("fixed-point", "normal_form(normal_form(spiral)) is %s" % (
+                o2 if o2 != "value" else "another diagram"))
+        self.note("long_traces")
+        self.case("spiral", n, left, bool(op.get("dagger")))
         return "ok"
 
     def op_normal_form_custom(self, op):
@@ -976,6 +1014,10 @@ class Driver:
             if fault.random() < cfg["p_interrupt"]:
                 op["interrupt_at"] = self.interrupt_at(5000)
             return op
+        if r < 0.805:
+            cls = sched.choice(["monoidal", "monoidal", "rigid"])      # rigid costs four times as much
+            return {"op": "long_trace", "n": sched.choice([5, 7, 9, 10] if cls == "monoidal" else [5, 7]),
+                    "left": sched.random() < 0.5, "dagger": sched.random() < 0.3, "cls": cls}
         if r < 0.82:
             return {"op": "subs", "src": src, "dst": src if sched.random() < 0.5 else self.fresh_slot(),
                     "value": sched.choice([0, 1, 2])}
